@@ -1,7 +1,7 @@
 //! C08: `ViewBounds::view_bounds` for every selector form × every integer type.
 //! Correspondence: Lean model `SurfModel.Slice.viewBounds` (proved equal to the Python spec).
 //! Oracle: independent Python-slice implementation below (i128 arithmetic).
-use crate::{Cfg, r#gen::Rng, out::Out};
+use verif_harness::{Cfg, r#gen::Rng, out::Out};
 use serde_json::json;
 use std::collections::HashSet;
 use std::panic::{AssertUnwindSafe, catch_unwind};
@@ -162,8 +162,10 @@ macro_rules! one_n {
     }};
 }
 
-pub fn run(cfg: &Cfg, out: Out) {
-    std::panic::set_hook(Box::new(|_| {}));
+fn main() {
+    let cfg = Cfg::from_env();
+    let out = cfg.out();
+    verif_harness::silence_panics();
     let mut ctx = Ctx { out, seen: HashSet::new() };
     let mut rng = Rng::new(cfg.seed);
     let mut ns: Vec<usize> = (0..=12).collect();
